@@ -29,7 +29,9 @@ BATCH = 40
 def type_open(tree):
     """result type not documented: `x and y` on non-bool operands (Python would return an operand)"""
     if tree[0] == "conv" and tree[1] == "assign":
-        return True  # the conversion happens in the assignment to the port: the expression itself has the source type
+        return True
+    if "'null'" in repr(tree) or "'full'" in repr(tree):
+        return True  # the merged value takes the type of its target  # the conversion happens in the assignment to the port: the expression itself has the source type
     return tree[0] == "bool" and any(V.typeof(e) != V.BOOL for e in tree[2])
 
 
@@ -458,6 +460,8 @@ def families(run: Run):
         yield "select_with with aliased keys", G._dedup(G.select_aliases())
         yield "iteration consumers over slice chains", G._dedup(G.iter_chains(quick=True))
         yield "operations on constant pairs", G._dedup(G.const_pairs())
+        yield "Null/Full alternatives of merges", G._dedup(G.null_full())
+        yield "one sliced object used several times", G._dedup(G.shared_objects())
         # beyond the complete bound: a seed-chosen 1/150 stratum of the depth-2 family
         pick = run.seed % 150
         yield f"depth2 widths{{1,2}} stratum {pick}/150 (seed-chosen)", (
@@ -473,6 +477,8 @@ def families(run: Run):
         yield "select_with with aliased keys", G._dedup(G.select_aliases())
         yield "iteration consumers over slice chains", G._dedup(G.iter_chains(quick=False))
         yield "operations on constant pairs", G._dedup(G.const_pairs())
+        yield "Null/Full alternatives of merges", G._dedup(G.null_full())
+        yield "one sliced object used several times", G._dedup(G.shared_objects())
         yield "depth2 widths{1,2}", G.depth2((1, 2))
 
 
